@@ -37,7 +37,13 @@ macro_rules! impl_request_handler {
 
             fn handle(&self, ctx: &mut LspContext, req: lsp_server::Request) -> MosResult<()> {
                 let method = RequestHandler::method(self);
-                let (id, params) = req.extract(method).unwrap();
+                debug_assert_eq!(req.method, method);
+                // (lsp_server's `extract` panics on parameters that do not have the shape the protocol prescribes)
+                let id = req.id;
+                let params = match serde_json::from_value(req.params) {
+                    Ok(params) => params,
+                    Err(e) => return ctx.send_error(id, -32602, format!("invalid parameters: {}", e)),
+                };
                 let result = RequestHandler::handle(self, ctx, params)?;
                 ctx.send_response(id, result)?;
                 Ok(())
@@ -56,8 +62,15 @@ macro_rules! impl_notification_handler {
 
             fn handle(&self, ctx: &mut LspContext, req: lsp_server::Notification) -> MosResult<()> {
                 let method = NotificationHandler::method(self);
-                let params = req.extract(method).unwrap();
-                NotificationHandler::handle(self, ctx, params)
+                debug_assert_eq!(req.method, method);
+                match serde_json::from_value(req.params) {
+                    Ok(params) => NotificationHandler::handle(self, ctx, params),
+                    Err(e) => {
+                        // A notification cannot be answered; one we cannot read is ignored
+                        log::debug!("ignoring malformed notification: {}", e);
+                        Ok(())
+                    }
+                }
             }
         }
     };
